@@ -3,6 +3,7 @@ import PercevalModel.Model.C08
 import PercevalModel.Model.C08Glue
 import PercevalModel.Model.C08Circ
 import PercevalModel.Model.C08Mix
+import PercevalModel.Model.C08Hist
 import PercevalModel.Lemmas.C08Fock
 import PercevalModel.Lemmas.C08Thr
 import PercevalModel.Found.SM
@@ -38,6 +39,10 @@ import Mathlib.Algebra.Order.Field.Rat
     of the `SVDistribution` with their theoretical distributions, `rel` = `_rel_precision`, `filter` = the user's
     `min_detected_photons_filter` (the herald values are added by the model); replies results / physical_perf /
     logical_perf and the `p_threshold` handed to `simulate_detectors`
+  * `{"op":"hist","fixed":b,"wires":w|null,"max":k|null,"steps":[[minp,n],…]}` or
+    `{"op":"hist","fixed":b,"L":l,"r":q,"steps":[[minp,n]|null,…]}` — ONE long-lived instance through `detect(n)` calls
+    each executed at its own `min_p` (`null` = `clear_cache()`, beam-splitter tree only): `detectInstH` / `bsInstH` of
+    `Model/C08Hist.lean` (`fixed:false` = the pinned tree whose `_cache` ignores `min_p`); reply `outs` (null for a clear)
   A detector is `null`, `{"w":w|null,"max":k|null}` or `{"bs":l,"r":q}`.
 -/
 
@@ -182,8 +187,35 @@ def probsMixOp (j : Json) : Except String Json := do
     ("perf", ratToJson o.phys), ("logical", ratToJson o.logical),
     ("thr", ratToJson (preThreshold minP rel F ms)), ("kept", toJson (preKept minP rel F ms).length)]
 
+def histOp (j : Json) : Except String Json := do
+  let fixed ← boolOf j "fixed"
+  let steps ← (← arrOf j "steps").toList.mapM fun e => do
+    match e with
+    | .null => return (none : Option (ℚ × ℕ))
+    | .arr #[p, n] => return some ((← ratOfJson p), (← n.getNat?))
+    | _ => throw "bad step"
+  match j.getObjVal? "L" with
+  | .ok lj =>
+    let l ← lj.getNat?
+    let r ← ratOfJson (← j.getObjVal? "r")
+    let p ← mkBS l r
+    let outs := (SM.run (bsInstH fixed p.1 p.2) ⟨[], none⟩ steps).2
+    return Json.mkObj [("outs", .arr (outs.map fun o => match o with
+      | none => Json.null
+      | some x => outToJson x.2).toArray)]
+  | .error _ =>
+    let w ← optNat j "wires"
+    let mx ← optNat j "max"
+    let d ← mkDetector w mx
+    let ops ← steps.mapM fun e => match e with
+      | none => Except.error "clear_cache: not a method of Detector"
+      | some x => pure x
+    let outs := (SM.run (detectInstH fixed d) ⟨⟨[], []⟩, none⟩ ops).2
+    return Json.mkObj [("outs", .arr (outs.map fun o => outToJson o.2).toArray)]
+
 def handleReq (j : Json) : Except String Json := do
   let op ← strOf j "op"
+  if op == "hist" then return ← histOp j
   if op == "bscirc" then return ← bscirc j
   if op == "probsmix" then return ← probsMixOp j
   if op == "probs" then return ← probsOp j
